@@ -755,8 +755,8 @@ def normalize_function(fn, resolver=None, list_attrs=frozenset(), consts=None, c
             if isinstance(vc, ast.Constant) and (vc.value is None or isinstance(vc.value, (bool, int, float, str))) \
                     and vc.value is not Ellipsis:
                 # a local name for a constant
-                if _dominates_uses(new, asg, name) and not _in_loop(new, asg):
-                    table[name] = v
+                if _dominates_uses(new, asg, name):
+                    table[name] = v          # (also inside a loop: a constant is the same in every iteration)
                 continue
             if not _is_path(v) or (isinstance(v, ast.Name) and v.id == name):
                 continue
